@@ -149,6 +149,52 @@ func init() {
 		}
 		return "ACCEPTED"
 	}
+	// CRforge: the same out-of-order contract receive, arriving from the network. Contract receive blocks carry no
+	// signature: the block is built with the node's own generation code minus the verifier's next-in-line decision
+	// (vm.VerifForgeContractReceive, build overlay) and handed to the node through the bridge like any gossiped block
+	ops.Extra["CRforge"] = func(n *vnode.Node, o ops.Op) (out string) {
+		ca := contracts[o.B]
+		q := expectedQueues(n)[ca]
+		done := 0
+		for _, b := range n.Chain.GetUncommittedAccountBlocksByAddress(ca) {
+			if b.BlockType == nom.BlockTypeContractReceive {
+				done++
+			}
+		}
+		acc := n.Chain.GetFrontierMomentumStore().GetAccountStore(ca)
+		for h := uint64(1); h <= acc.Identifier().Height; h++ {
+			if b, _ := acc.ByHeight(h); b != nil && b.BlockType == nom.BlockTypeContractReceive {
+				done++
+			}
+		}
+		if done+1 >= len(q) {
+			return "no-second-entry"
+		}
+		send, err := n.Chain.GetFrontierMomentumStore().GetAccountBlockByHash(q[done+1])
+		if err != nil || send == nil {
+			return "no-send"
+		}
+		var forged *nom.AccountBlock
+		func() {
+			defer func() {
+				if r := recover(); r != nil {
+					out = "forging-failed"
+				}
+			}()
+			if forged, err = n.Sup.VerifForgeContractReceive(send); err != nil {
+				out = "forging-failed"
+			}
+		}()
+		if out != "" {
+			return out
+		}
+		if err, pan := n.AddAccountBlocks([]*nom.AccountBlock{vnode.CloneBlock(forged)}); pan != nil {
+			return "refused-with-panic"
+		} else if err != nil {
+			return "refused"
+		}
+		return "ACCEPTED"
+	}
 	// Rhi: account A receives its pending send number B with a higher plasma ratio (can replace a pooled block at that height)
 	ops.Extra["Rhi"] = func(n *vnode.Node, o ops.Op) string {
 		addr := ops.Users[o.A].Address
@@ -261,6 +307,7 @@ func alphabet(thorough bool) []ops.Op {
 		{K: "Rhi", A: 1, B: 0},
 		{K: "Rhi", A: 1, B: 1},
 		{K: "CRskip", B: 0},
+		{K: "CRforge", B: 0},
 		{K: "Reorg"},
 	}
 	if thorough {
@@ -348,6 +395,9 @@ func run(c *xs.Ctx, r *xs.Result) {
 func check(r *xs.Result, s *hx.Step) bool {
 	if s.Op.K == "CRskip" {
 		r.Add("crskip_outcomes", s.Outcome)
+	}
+	if s.Op.K == "CRforge" {
+		r.Add("crforge_outcomes", s.Outcome)
 	}
 	if (s.Op.K == "Rdup" || s.Op.K == "Rwrong") && s.Outcome == "ok" {
 		r.Count("suspicious_receives_accepted", 1)
